@@ -59,6 +59,18 @@ def run(chk):
     for src, w in [("has(1)", "OK b1"), ("has(null)", "OK b1"), ("has(false)", "OK b1"), ("has(m1.a)", "OK b1"),
                    ("has(m1.b)", "OK b0"), ("has(m1['b'])", "OK b0"), ("has(zz)", "OK b0"), ("has(m1) && has(m1.a)", "OK b1")]:
         add(src, [("m1", vmap([("a", vi(1))]))], w)
+    # a bare name resolves like anywhere else: a type name, a bound variable, or another program of the same context
+    progs = [("limit", "5"), ("ratio", "1 / 0"), ("nothing", "null"), ("alias", "limit"), ("missing", "zz9")]
+    for src, w in [("has(limit)", "OK b1"), ("has(ratio)", "ERRANY"), ("has(nothing)", "OK b1"), ("has(alias)", "OK b1"),
+                   ("has(missing)", "OK b0"), ("has(int)", "OK b1"), ("has(timestamp)", "OK b1"), ("has(v1)", "OK b1"), ("has(zz)", "OK b0"),
+                   ("coalesce(limit, 99)", "OK " + vi(5)), ("coalesce(ratio, 1)", "ERRANY"), ("coalesce(nothing, 99)", "OK " + vi(99)),
+                   ("coalesce(alias, 99)", "OK " + vi(5)), ("coalesce(missing, 99)", "OK " + vi(99)), ("coalesce(zz, limit)", "OK " + vi(5)),
+                   ("coalesce(v1, 99)", "OK " + vi(3)), ("[1, 2].map(i, has(limit) ? limit + i : 0)", "OK " + vlist([vi(6), vi(7)])),
+                   ("[1].map(i, coalesce(missing, limit))", "OK " + vlist([vi(5)])), ("has(limit) && !has(missing)", "OK b1"),
+                   ("[0].map(i, has(ratio))", "ERRANY"), ("type(coalesce(int, 1)) == type", "OK b1")]:
+        cases.append(evalsrc_case(src, progs=progs, binds=[("v1", vi(3))], std=False))
+        want.append(w)
+        labels.append(src + " with sibling programs")
     n_has = len(cases)
     # coalesce: argument lists of length 0..5 mixing present / null / absent / failing, with call counting
     kinds = {"P": ("fa(%d)", lambda i: ("val", vi(i))), "N": ("null", lambda i: ("skip", None)),
